@@ -14,8 +14,8 @@ def run(rep, tier):
                 "elaboration verdict; non-trivial = rejected designs (each must be rejected for a reference reason)")
     rep.assumptions = ASSUME + ["single_caller with two call sites inside ONE caller is not generated (statement only requires "
                                 "rejection for two transactions; the library also rejects that shape)"]
-    fams = ["bad", "ctrl", "xmod", "flat_s", "chain_s", "rel2", "rel3", "nest", "val", "prov", "fwd"] if tier == "quick" else \
-        ["bad", "ctrl", "xmod_l", "flat", "flat3_s", "chain", "rel2", "rel3", "rel4", "nest", "val", "prov", "fwd"]
+    fams = ["bad", "ctrl", "xmod", "flat_s", "chain_s", "rel2", "rel3", "nest", "val", "prov", "provrel", "fwd"] if tier == "quick" else \
+        ["bad", "ctrl", "xmod_l", "flat", "flat3_s", "chain", "rel2", "rel3", "rel4", "nest", "val", "prov", "provrel", "fwd"]
     FAMS_Q.setdefault("fwd", ("fwd", {}))
     run_family_check(rep, "C11", [FAMS_Q[n] for n in fams], simulate=False, props=["C11"])
     rep.nontrivial = rep.counters.get("designs_rejected", 0)
